@@ -132,6 +132,16 @@ def build_jobs(ctx):
             sp = STD_PKGS[i:i + 5]
             add("std", {"kind": "pkgs", "name": "std:" + ",".join(sp), "cwd": vlib.REPO, "patterns": sp,
                         "modes": mode_pairs(rng, 0), "sample": 40, "seed": ctx.seed})
+    cap = int(os.environ.get("VERIF_C02_CAP", "0") or 0)
+    if cap > 0:
+        # development aid: at most `cap` jobs per corpus (the tier's code path, a fraction of its cost)
+        kept, seen = [], {}
+        for j in jobs:
+            seen[j["corpus"]] = seen.get(j["corpus"], 0) + 1
+            if seen[j["corpus"]] <= cap:
+                kept.append(j)
+        jobs = kept
+        corp = {c: min(n, cap) for c, n in corp.items()}
     return jobs, corp
 
 
@@ -499,8 +509,9 @@ def run(ctx):
 
     lines = list(read_docs(out))
     batches = make_batches(lines, 260 if ctx.quick else 400, 3_500_000 if ctx.quick else 6_000_000)
-    nproc = 4
-    wk = max(1, min(12, vlib.NCPU) // nproc)
+    total_workers = max(2, min(12, vlib.NCPU, int(os.environ.get("VERIF_TLC_WORKERS", "12") or 12)))
+    nproc = 4 if total_workers >= 8 else 2
+    wk = max(1, total_workers // nproc)
 
     # negative self-test runs next to the batches
     import threading
@@ -608,7 +619,7 @@ def run(ctx):
             n_irred += irr
             n_phi += ph
             n_recover += rec
-    if not ctx.quick and (missing_kinds or not n_irred or not n_phi or not n_recover):
+    if not ctx.quick and not os.environ.get("VERIF_C02_CAP") and (missing_kinds or not n_irred or not n_phi or not n_recover):
         raise Inconclusive("vacuity: the thorough corpus lacks instruction kinds %s / irreducible=%d phi=%d recover=%d"
                            % (missing_kinds, n_irred, n_phi, n_recover))
     if ctx.quick and (not n_irred or not n_phi or not n_recover):
